@@ -223,6 +223,10 @@ def data_cases(tier):
                             off = (size + 3) // 4 * 4
                             i2.append((off, off + 4, 0, 0, ('const', 'int', 0x01020304))); sz = off + 8
                         cases.append(('str:%s[%d]="%d units"%s%s' % (wname, units, n, ''.join(',[%d]' % o for o in over), ',tail' if tail else ''), sz, w if not tail else 4, i2))
+                    # the same array as a later member (non-zero offset): element overrides are relative to the array, not the object
+                    for lead in (4, 12):
+                        i3 = [(0, 4, 0, 0, ('const', 'int', 0x0a0b0c0d))] + [(a_ + lead, b_ + lead, c_, d_, e_) for a_, b_, c_, d_, e_ in inits]
+                        cases.append(('str@%d:%s[%d]="%d units"%s' % (lead, wname, units, n, ''.join(',[%d]' % o for o in over)), (lead + size + 3) // 4 * 4, 4, i3))
     # address constants
     for add in (None, 0, 4, 4096):
         for off in (0, 8):
